@@ -12,5 +12,6 @@ for d in $V/seeded/$G/; do
     C05-m2) props="C05 C02";; C18-m2) props="C18 C05";; C02-m4) props="C02 C05";; C05-m4) props="C05 C02";; C20-m3) props="C20 C04";; C07-m4) props="C07 C02";; C08-m4) props="C08 C07";;
   esac
   $V/tools/run_mutant.sh $id $B $props > $d/detect.txt 2>&1
-  echo "$id: $(grep -c 'exit=1' $d/detect.txt) of $(echo $props | wc -w) checks fired"
+  if grep -q "patch does not apply" $d/detect.txt; then echo "$id: PATCH NO LONGER APPLIES to the current tree"; else
+  echo "$id: $(grep -c 'exit=1' $d/detect.txt) of $(echo $props | wc -w) checks fired"; fi
 done
